@@ -60,7 +60,9 @@ func IsComplexExpr(expr string) bool {
 // substring tests of IsComplexExpr do not recognise it.
 func IsVariablePath(expr string) bool {
 	if expr == "" {
-		return false
+		// Nothing to evaluate: {{ }} and :title="" are looked up like a name, find nothing
+		// and have no value, instead of failing in the evaluator on an empty expression
+		return true
 	}
 	depth := 0
 	index := 0 // where the content of the innermost open bracket starts
